@@ -10,20 +10,30 @@ UNWIND_CONTEXT = [
 ENTRY_BUFFERS = [Stream('c20.buf', 400, 40000, 'oracle', timeout=900, exhaustive='every corpus variant unmodified and with 1 / 4 damaged bytes')]
 TREE_REROOT = [Stream('c20.tree', 300, 30000, 'oracle', timeout=900, exhaustive='every corpus variant unmodified and with 1 / 4 damaged bytes')]
 ITERATOR_CLONES = [Stream('c20.clone', 200, 20000, 'oracle', timeout=900, exhaustive='every corpus variant; clones at random positions of EntriesCursor, LineRows, OperationIter, CfiEntriesIter')]
+# model-kind streams for Model/EntryBuf.v: generated units (C02 spec encoder, 40% damaged) x operation histories
+ENTRYBUF_MODEL = [
+    Stream('c20.bufm', 6000, 120000, 'model', timeout=1500),
+    Stream('c20.curm', 5000, 100000, 'model', timeout=1500),
+    Stream('c20.treem', 5000, 100000, 'model', timeout=1500),
+    Stream('c20.linem', 5000, 100000, 'model', timeout=1500),
+]
 ABBREV_CACHE = [Stream('c20.cache', 400, 40000, 'oracle', timeout=900, exhaustive='every corpus variant x strategies none/Duplicates/All (populated once and twice), abbreviation offsets shared / damaged / invalid')]
 
-reg(Prop('C20', UNWIND_CONTEXT + ENTRY_BUFFERS + TREE_REROOT + ITERATOR_CLONES + ABBREV_CACHE,
+reg(Prop('C20', UNWIND_CONTEXT + ENTRY_BUFFERS + TREE_REROOT + ITERATOR_CLONES + ABBREV_CACHE + ENTRYBUF_MODEL,
     level='proof', design_ref='§5 C20',
     clauses=[
+        'buf_history_independent, buf_equals_fresh, read_ok_overwrites_buffer (Model/EntryBuf.v threads the caller\'s DebuggingInformationEntry through EntriesRaw::read_entry as unit.rs does): for ANY prior buffer contents and ANY history of reads / skips / re-opens, failed ones included, every result, every entry delivered by a successful read and every reader position equal those obtained with a fresh null buffer per read; read_entry_buf_is_read_entry ties the buffer version to the pure C02 model',
+        'reroot_is_fresh: a history of root()+partial walks (abandoned after any number of entries, skipping any subtrees, failing) on ONE EntriesTree in any state equals each walk on a fresh tree; cursor_cache_irrelevant: next_entry/next_dfs do not depend on the cached entry',
+        'clone_independent (+ cursor/raw instances): in the functional model an original and its clone under any interleaving behave as each alone — immediate, stated for the record; ALIASING in the Rust cannot be exhibited by the model and is decided by the oracles c20.clone and the cloned cursors of c20.curm',
         'cache_transparent, cache_repopulate: for every strategy and every scanned unit list, AbbreviationsCache::get returns exactly what parsing the offset returns (Ok or Err alike)',
         'reset_is_fresh, initialize_history_free, history_independent, history_equals_fresh: in the model of UnwindContext every use of a context (all rows / abandoned after k rows / address lookup; failing or not; any storage capacity; any starting state, reachable or not) gives the result it gives on a fresh context — by induction on the history',
     ],
     explored_only=[
         'that the Rust initialize really starts from a reset state: impl-side oracle c20.hist (reused vs fresh, exhaustive short histories)',
-        'entry buffers (c20.buf), EntriesTree re-rooting (c20.tree), iterator clones (c20.clone): impl-side oracles over the compiler corpus with seeded damage; clone independence is not a theorem (derive(Clone) on a functional model cannot fail)',
+        'corpus-scale checks of entry buffers (c20.buf), re-rooting (c20.tree), clones of EntriesCursor/LineRows/OperationIter/CfiEntriesIter (c20.clone): impl-side oracles over the compiler corpus with seeded damage; buffer contents after a FAILED read are unspecified by the API and only mirrored (c20.bufm), not claimed; LineRows / OperationIter / CfiEntriesIter clones have no model here',
         'that the Rust cache stores exactly what parsing yields: oracle c20.cache (none vs Duplicates vs All, populated twice)',
     ],
-    level_text='PARTIAL (unwind context and abbreviation cache are theorems; buffers/tree/clones are exploration). Coq theorems state history independence of the UnwindContext model for all histories (any length, failing entries included, every capacity); the implementation is checked on every run by evaluating all histories up to length 3 (thorough 4) over a pool of 12 succeeding/failing FDEs, plus random longer ones with abandoned tables and address lookups, on one reused context versus fresh contexts, for heap and custom storages, in debug and release builds.',
+    level_text='Unwind context, abbreviation cache, entry buffers, cursor cache and EntriesTree re-rooting are theorems over Gallina models tied to gimli step by step (c20.histm, c20.bufm, c20.curm, c20.treem); clone independence is immediate in a functional model and rests on the oracles. Coq theorems state history independence of the UnwindContext model for all histories (any length, failing entries included, every capacity); the implementation is checked on every run by evaluating all histories up to length 3 (thorough 4) over a pool of 12 succeeding/failing FDEs, plus random longer ones with abandoned tables and address lookups, on one reused context versus fresh contexts, for heap and custom storages, in debug and release builds.',
     level_note='The theorems are easy in the model because its initialize begins with reset, mirroring the code; the weight is on the impl-side oracle. The cache model takes DebugAbbrev::abbreviations as a pure function of the offset.',
     technique='Coq proof of history independence over a Gallina model of UnwindContext + impl-side oracle (reused = fresh) on exhaustive short histories (debug+release)',
 ))
